@@ -181,6 +181,15 @@ def run_prefix(case):
     expect_chords("progressions.to_chords(%r, %r)" % (s, key), got, [want], tags={"k": k})
     S.outcome((key, s, repr(got)))
     S.count("prefixed_chords" if k else "unprefixed_chords")
+    # the same numeral several times in one progression, each time under another prefix (and in the other case)
+    others = [j for j in (-k, 0, k + 1, k - 1) if j != k and abs(j) <= 3]
+    prog = [s] + [H.fmt(deg, j, "7" if seventh else "", not lower if i % 2 else lower) for i, j in enumerate(others)]
+    wants = [want] + [[H.shift(x, j) for x in base] for j in others]
+    ok, got = call("progressions.to_chords(%r, %r)" % (prog, key), mprog.to_chords, prog, key)
+    S.trans(1)
+    if ok:
+        expect_chords("progressions.to_chords(%r, %r)" % (prog, key), got, wants, tags={"k": k, "how": "repeated numeral"})
+        S.count("progressions_repeating_a_numeral")
 
 
 def gen_prefix(key):
@@ -721,6 +730,14 @@ def run_substitute(case):
                       sorted(set(res)), detail={"missing": sorted(set(unrolled) - set(res)), "extra": sorted(set(res) - set(unrolled))},
                       tags={"how": "unrolling"})
         S.count("unrollings_checked")
+    # the last chord addressed from the end (index -1) is the same question as index len-1
+    if index == length - 1:
+        ok, neg = call("progressions.substitute(%r, -1, %d)" % (before, depth), mprog.substitute, list(before), -1, depth)
+        S.trans(1)
+        if ok and (not isinstance(neg, list) or set(neg) != set(res)):
+            S.problem("progressions.substitute(%r, -1, %d) vs index %d" % (before, depth, index), sorted(set(res)),
+                      sorted(set(neg)) if isinstance(neg, list) else neg, tags={"how": "negative index"})
+        S.count("negative_index_checked")
 
 
 def gen_substitute(shard):
